@@ -28,9 +28,14 @@
 // output that an independent verifier rejects (signature: library verifier and crypto/ecdsa; shard:
 // lift(share) ≠ M·V, public keys of completing honest parties differ, redistribution changed pk).
 //
-// quick: a stratified sample per scenario (one site per (round, kind, normalised path) group in turn,
-// random operator / sender / recipient); thorough: every applicable tampering of the 3-party runs
-// (capped per scenario for the slow protocols: the cap and the population are in the statistics).
+// quick: a stratified sample per scenario — strata = (round, kind, leaf path), all map sites resp. all
+// array sites of a message kind being one stratum each; strata are visited in turn, inside a stratum
+// operators that substitute another VALID value (par / replay / swapr / swapf: they reach the semantic
+// checks) alternate with the others; sender, recipient and operator by the seed. thorough: every
+// applicable tampering of the 3-party runs (capped per scenario for the slow protocols: the cap and
+// the population are in the statistics).
+// `site=<proto>/r<round>/<b|u>/<normalised path>/<op>` in a !VIOLATION (and in the driver's BAD) is the
+// stable identifier of a finding.
 
 package main
 
